@@ -700,3 +700,97 @@ func RunReopen(c *core.Ctx) {
 	}
 	c.Sample(map[string]any{"backend": backend, "prefixes": len(ops)})
 }
+
+// RunFsyncOrder traces a child that replays a history on the default on-disk
+// backend with strace and checks, offline over the syscall log, that every
+// acknowledged mutating operation was made durable before it was acknowledged:
+// after the last pwrite64 of the operation an fdatasync/fsync completes before
+// the acknowledgement is written. This is the observation a process kill cannot
+// give (the page cache survives a kill) and what a NoSync-style change breaks.
+func RunFsyncOrder(c *core.Ctx) {
+	r := c.R
+	seed := r.U64()
+	ops := crashHistory(seed)
+	c.Backend = BBoltRaw
+	self, _ := os.Executable()
+	dirSeq++
+	base := filepath.Join(c.Scratch, fmt.Sprintf("fsync%d", dirSeq))
+	dbdir := filepath.Join(base, "db")
+	os.MkdirAll(dbdir, 0755)
+	defer os.RemoveAll(base)
+	ackPath := filepath.Join(base, "ack")
+	logPath := filepath.Join(base, "strace.log")
+	if _, err := exec.LookPath("strace"); err != nil {
+		c.Inconclusive("strace_missing")
+		return
+	}
+	cmd := exec.Command("strace", "-f", "-qq", "-o", logPath, "-e", "trace=pwrite64,fdatasync,fsync,write", "-e", "signal=none", "-s", "24",
+		self, "crashchild", "-dir", dbdir, "-backend", BBoltRaw, "-seed", fmt.Sprint(seed), "-start", "0", "-killop", "-1", "-ack", ackPath)
+	out, err := cmd.CombinedOutput()
+	core.Tick()
+	if err != nil {
+		// strace not permitted here (ptrace restrictions): nothing can be said
+		c.Log("strace failed: %v %s", err, string(out))
+		c.Inconclusive("strace_failed")
+		return
+	}
+	f, err := os.Open(logPath)
+	if err != nil {
+		c.Inconclusive("strace_failed")
+		return
+	}
+	defer f.Close()
+	type win struct {
+		lastPwrite, syncAfter int
+		pwrites           int
+	}
+	cur := -1 // operation whose window is open
+	w := win{lastPwrite: -1, syncAfter: -1}
+	lineNo := 0
+	checked := 0
+	sc := bufio.NewScanner(f)
+	sc.Buffer(make([]byte, 1<<20), 1<<20)
+	for sc.Scan() {
+		line := sc.Text()
+		lineNo++
+		switch {
+		case strings.Contains(line, "write(") && strings.Contains(line, "\"B "):
+			i := strings.Index(line, "\"B ")
+			fmt.Sscanf(line[i+3:], "%d", &cur)
+			w = win{lastPwrite: -1, syncAfter: -1}
+		case strings.Contains(line, "pwrite64("):
+			w.lastPwrite = lineNo
+			w.pwrites++
+		case (strings.Contains(line, "fdatasync(") || strings.Contains(line, "fsync(")) && strings.Contains(line, "= 0") && !strings.Contains(line, "unfinished"):
+			w.syncAfter = lineNo
+		case strings.Contains(line, "<... fdatasync resumed>") || strings.Contains(line, "<... fsync resumed>"):
+			if strings.Contains(line, "= 0") {
+				w.syncAfter = lineNo
+			}
+		case strings.Contains(line, "write(") && strings.Contains(line, "\"A "):
+			var idx int
+			var cls string
+			i := strings.Index(line, "\"A ")
+			fmt.Sscanf(strings.ReplaceAll(line[i+3:], "\\n", " "), "%d %s", &idx, &cls)
+			if idx != cur || idx >= len(ops) {
+				continue
+			}
+			c.Eval(1)
+			if w.pwrites > 0 {
+				checked++
+				if w.syncAfter < w.lastPwrite {
+					c.Violate("durability:ack-before-sync:"+ops[idx].Kind, "%s was acknowledged (%s) although no fdatasync/fsync completed after its last pwrite64 (strace log line %d, %d page writes in the operation): an acknowledged operation would not survive power loss", ops[idx], cls, w.lastPwrite, w.pwrites)
+					return
+				}
+				c.Cell("fsync-order|%s", ops[idx].Kind)
+			}
+			cur = -1
+		}
+	}
+	c.Count("fsync_windows_checked", checked)
+	if checked == 0 {
+		c.Inconclusive("no_page_writes_traced")
+		return
+	}
+	c.Sample(map[string]any{"engine": "fsync-order", "operations": len(ops), "windows_with_page_writes": checked, "strace_lines": lineNo})
+}
